@@ -98,6 +98,11 @@ def has_vector(f):
     return any(p["row"] in VECTOR_ROWS for p in f["params"]) or bool(f.get("ret") and f["ret"]["row"] == "V")
 
 
+def lib_has_vector(lib):
+    return any(has_vector(f) for f in lib["funcs"]) or \
+        any(has_vector(f) for c in lib.get("classes", []) for k in ("methods", "statics") for f in c[k])
+
+
 def without_vectors(lib):
     """The library without its std::vector functions.  Used for configurations with F_CFI: std::vector
     together with F_CFI is a recorded finding (C05 probe:vector-with-cfi - the wrapper does not compile),
@@ -165,7 +170,7 @@ def param(draw, i, lang, for_fortran=True, allowed=None, types=None):
     if row == "S1inout":
         return [P(n, row, "char", "char *%s" % n, "+intent(inout)", "inout")]
     if row in VECTOR_ROWS:
-        T = draw(st.sampled_from(["int", "double", "long"]))
+        T = draw(st.sampled_from(["int", "double", "long", "int64_t", "int32_t"]))
         if row == "V1in":
             return [P(n, row, T, "const std::vector<%s> &%s" % (T, n))]
         attrs, d = {"V1out": ("+intent(out)", "out"), "V1inout": ("", "inout"),
@@ -475,8 +480,8 @@ def klass(draw, lang, fid, name, for_fortran=True, results=None, types=None, row
         fid += 1
     c["dtor_fid"] = fid
     fid += 1
-    for i in range(draw(st.integers(1, 3))):
-        f = draw(function(lang, fid, "method%d" % i, cls=name, kind="method", max_params=2, for_fortran=for_fortran,
+    for i in range(draw(st.integers(1, 4))):
+        f = draw(function(lang, fid, "method%d" % i, cls=name, kind="method", max_params=3, for_fortran=for_fortran,
                           allowed=[r for r in SIMPLE_ROWS if rows is None or r in rows], results=results, types=types))
         c["methods"].append(f)
         fid += 1
